@@ -9,6 +9,7 @@ import (
 
 	"verif/checks/c01"
 	"verif/checks/c02"
+	"verif/checks/c03"
 	"verif/checks/c13"
 	"verif/checks/c14"
 	"verif/checks/c15"
@@ -33,6 +34,7 @@ var checks = map[string]check{
 	"C16": {"model_checking", c16.Run},
 	"C17": {"model_checking", c17.Run},
 	"C19": {"model_checking", c19.Run},
+	"C03": {"model_checking", c03.Run},
 	"C05": {"model_checking", ccrypto.RunC05},
 	"C06": {"model_checking", ccrypto.RunC06},
 	"C07": {"model_checking", ccrypto.RunC07},
